@@ -1,5 +1,6 @@
 import XixiKV.Proofs.Conc
 import XixiKV.Model.Lockset
+import XixiKV.Proofs.ConcMerge
 /-!
 # C08 — concurrent `Put` / `Delete` / `Get` are linearizable and the live mapping is the one a
 restart recovers
@@ -182,5 +183,16 @@ example : ¬ WellLocked
      ⟨"DB.Delete", 2, "append", .W, 1⟩, ⟨"DB.Delete", 3, "idxDel", .W, 1⟩,
      ⟨"DB.Delete", 4, "relW", .W, 1⟩, ⟨"DB.Delete", 5, "ret", .none, 0⟩] := by decide
 
+
+/-! ## "(and a concurrent Merge)" -/
+
+open XixiKV.ConcMerge in
+/-- A Merge running concurrently (`Model/ConcMerge.lean`: boundary under the lock, one atomic index
+    read per old record, marker at the end) does not disturb the clients: with it, every reachable
+    history is still linearizable, and whenever `db.mu` is free the live index is the replay of the
+    log.  (What a restart recovers after ADOPTING the finished merge is `C06_concurrent_merge`.) -/
+theorem C08_with_merge {b : Bool} {a : GM} (h : ReachableM Shape.allTrue b a) :
+    Linearizable a.g.hist ∧ (a.g.writer = none → a.g.idx = replay a.g.log) :=
+  ⟨(C08_linearizable (reachableM_base h)).1, C08_restart_agrees_unlocked (reachableM_base h)⟩
 
 end XixiKV.C08
